@@ -330,6 +330,8 @@ def mon_C13(run):
             # success is judged on GP estimates: recompute it from the estimates the poll itself obtained for the polled
             # points (observed at the improvement seam) against the incumbent estimate at poll entry (default quantile 0.5:
             # improvement = incumbent estimate - estimate at the polled point)
+            if pol.get("c1") is not None and (pol["c1"] - pol["c0"]) > 0 and pol.get("n_add", 0) != (pol["c1"] - pol["c0"]):
+                run.v("C13", "stochastic target: a polled point was judged without a posterior update (success not judged on the GP estimate)", "poll-judged-on-raw-observation", (pol.get("n_add", 0), pol["c1"] - pol["c0"]))
             elif uo.get("improvement_quantile", 0.5) == 0.5 and not uo.get("stobads") and pol.get("impr") is not None:
                 ests = [fn for fb, fn in pol["impr"]]
                 suff = max(pol["mesh"] ** 1.5, tf)
@@ -366,7 +368,8 @@ def mon_C14(run):
         if pol["B"] is None:
             run.v("C14", "poll evaluated points without generating directions", "poll-no-basis", "")
             continue
-        B, scale, mesh, u0 = pol["B"], pol["scale"], pol["mesh"], pol["u0"]
+        B, scale, u0 = pol["B"], pol["scale"], pol["u0"]
+        mesh = float(run.user_opts.get("poll_mesh_multiplier", 2.0)) ** pol["k0"]   # the mesh size *is* the power of its exponent (not a cached copy)
         dirs = B * scale * mesh
         used = []
         for c in pts:
